@@ -42,7 +42,7 @@ def F2.clearNext (a : F2) : F2 := { a with hEqR := false, pfP := false, hPol := 
 def tf2 (c : Cmd) (a : F2) (ok : Bool) : Option F2 :=
   match c with
   | .flockNB => some (if ok then { a with holds := true } else a)
-  | .rmrfNext | .mkdirNext => some a.clearNext
+  | .rmrfNext | .mkdirNext | .rmrfNextSrc | .mkdirNextP => some a.clearNext
   | .mvNextTo => some { a.clearNext with fresh := false, histLe := a.fresh }
   | .gitResetHash => some { a.clearNext with wOk := false, sOk := false }
   | .gitClone => some { a.clearNext with hEqR := a.holds, baseR := a.holds, wOk := false, sOk := false }
@@ -66,7 +66,8 @@ def tf2 (c : Cmd) (a : F2) (ok : Bool) : Option F2 :=
   | .gitCommitPolicy => some { a with hEqR := false, pfP := false, hPol := a.sOk && a.holds, wOk := false, sOk := false }
   | .gitPullMerge => some { a with hEqR := false, pfP := false, hPol := a.hPol && a.baseR }
   | .gitPush =>
-    some { a with pushed := a.hPol, hEqR := a.holds, baseR := a.holds, polGt := false, rZero := false, fcGe := false,
+    some { a with pushed := a.hPol, hEqR := a.holds, baseR := if ok then a.holds else a.baseR, polGt := false,
+                  rZero := false, fcGe := false,
                   fcOk := false, cntGe := false, cntGt := false, pfP := false }
   | .rmCurrent =>
     some { a with prevEq := false, lkZero := a.holds, lcOk := false, lcGe := false, cntGe := false, cntGt := false,
